@@ -1,7 +1,7 @@
 (* C14 - neighbour search returns every atom within range.
    Property theorems only; proofs are in Proofs/Cells.v. *)
 From Coq Require Import ZArith List.
-From PV Require Import Model.Cells Proofs.Cells.
+From PV Require Import Model.Cells Proofs.Cells Model.CellsUse Proofs.CellsUse Generated.C14Sites.
 Import ListNotations.
 Local Open Scope Z_scope.
 
@@ -63,6 +63,126 @@ Example C14_nonvacuous :
   filter (within 5 (run 5 1 (init p0) ops) 0%nat) (get_near_cells 5 (run 5 1 (init p0) ops) 0%nat) = [1%nat].
 Proof. exact nonvacuous. Qed.
 
+(* ==== the call-site protocols (Model/CellsUse.v) ============================
+   Good size D u  =  object allocation is sane, and UNLESS the ghost flag
+   stale u is set: the cell list is truthful about exactly the atoms of the
+   structure (Inv, registered <-> present) and it was so at every
+   get_near_cells call logged so far.  stale is set only by
+   get_positions_with_two_bonds / get_position_with_three_bonds (C14-F6). *)
+
+(* the source has exactly the call-site skeletons the model was written from *)
+Theorem C14_sites_table_matches_model : table_eqb sites modelled_sites = true.
+Proof. exact sites_table_matches_model. Qed.
+
+(* Cells.assign_cells on a new Cells object, atoms = the atoms of the structure *)
+Theorem C14_protocol_assign_cells_disciplined : forall size D, 0 < size -> 0 < D ->
+  forall atoms u0, NoDup atoms -> (forall a, In a atoms <-> present u0 a = true) -> alloc u0 ->
+  Good size D (assign_cells size D atoms u0) /\ stale (assign_cells size D atoms u0) = false.
+Proof. exact T_protocol_assign_cells_disciplined. Qed.
+
+(* Debump.set_dihedral_angle, for all atom lists and all new coordinates *)
+Theorem C14_protocol_set_dihedral_angle_disciplined : forall size D atoms f u,
+  Good size D u ->
+  Good size D (set_dihedral_angle size D atoms f u) /\ stale (set_dihedral_angle size D atoms f u) = stale u.
+Proof. exact T_protocol_set_dihedral_angle_disciplined. Qed.
+
+(* the whole debump window: any interleaving of set_dihedral_angle calls and
+   find_nearby_atoms queries; every query is logged in a truthful state *)
+Theorem C14_protocol_debump_window_disciplined : forall size D sc u,
+  Good size D u ->
+  Good size D (debump_run size D sc u) /\ stale (debump_run size D sc u) = stale u.
+Proof. exact T_protocol_debump_window_disciplined. Qed.
+
+(* remove_cell(a); remove_atom(a) for any list of atoms: Flip.fix_flip,
+   Flip.finalize, Alcoholic.__init__, the undo of try_both, *.complete,
+   Carboxylic.fix / try_acceptor / rename *)
+Theorem C14_protocol_remove_delete_disciplined : forall size D dels u,
+  Good size D u ->
+  Good size D (remove_delete_all dels u) /\ stale (remove_delete_all dels u) = stale u.
+Proof. exact T_protocol_remove_delete_disciplined. Qed.
+
+(* Flip.__init__ *)
+Theorem C14_protocol_flip_init_disciplined : forall size D atoms f news u,
+  Good size D u ->
+  Good size D (flip_init size D atoms f news u) /\ stale (flip_init size D atoms f news u) = stale u.
+Proof. exact T_protocol_flip_init_disciplined. Qed.
+
+(* Carboxylic.__init__ / try_acceptor / fix / finalize (with its queries) *)
+Theorem C14_protocol_carboxylic_disciplined : forall size D u, Good size D u ->
+  (forall steps, Good size D (carboxylic_init size D steps u)) /\
+  (forall del ren, Good size D (carboxylic_try_acceptor del ren u)) /\
+  (forall dels ren, Good size D (carboxylic_fix dels ren u)) /\
+  (forall fixed qs dels ren, Good size D (carboxylic_finalize fixed qs dels ren u)).
+Proof. exact T_protocol_carboxylic_disciplined. Qed.
+
+(* Alcoholic/Water.try_donor and try_acceptor with everything they call in
+   optimize.py (the make_ , try_single_alcoholic_ and try_positions_ families), for all oracle
+   answers and every bond count *)
+Theorem C14_protocol_try_donor_acceptor_disciplined : forall size D o a u, Good size D u ->
+  Good size D (alcoholic_try_donor size D o a u) /\ Good size D (alcoholic_try_acceptor size D o a u) /\
+  Good size D (water_try_donor size D o a u) /\ Good size D (water_try_acceptor size D o a u).
+Proof. exact T_protocol_try_donor_acceptor_disciplined. Qed.
+
+(* X.try_both: own try_donor, the other object's try_acceptor, undo *)
+Theorem C14_protocol_try_both_disciplined : forall size D mine other ok undo u,
+  (forall u, Good size D u -> Good size D (mine u)) -> (forall u, Good size D u -> Good size D (other u)) ->
+  Good size D u -> Good size D (try_both_undo mine other ok undo u).
+Proof. exact P_try_both_undo. Qed.
+
+(* Alcoholic.finalize and Water.finalize (any recursion depth), with the
+   get_near_cells / get_closest_atom calls inside their loops *)
+Theorem C14_protocol_finalize_disciplined : forall size D, 0 < size -> 0 < D -> forall u, Good size D u ->
+  (forall o atom, Good size D (alcoholic_finalize size D o atom u)) /\
+  (forall fuel o atom, Good size D (water_finalize size D fuel o atom u)).
+Proof. exact T_protocol_finalize_disciplined. Qed.
+
+(* FULL statement that fails: get_positions_with_two_bonds keeps the cell list
+   truthful for all rotation results.  Refuted (C14-F6): the rotated atoms are
+   registered and are not re-bucketed; when the third rotation lands one of them
+   on the other side of a cell boundary a later query misses it. *)
+Theorem C14_protocol_get_positions_refuted :
+  Good 5 10 f6_u /\
+  let u' := get_positions_with_two_bonds 5 10 0%nat f6_g f6_u in
+  stale u' = true /\ present u' 3%nat = true /\ present u' 2%nat = true /\
+  within 50 (cs u') 3%nat 2%nat = true /\ ~ In 2%nat (get_near_cells 5 (cs u') 3%nat).
+Proof. exact get_positions_refuted. Qed.
+
+(* what holds: truthful again whenever every rotated registered atom ends in
+   the cell it is listed in (that is exactly "stale stays false") *)
+Theorem C14_protocol_get_positions_partial : forall size D atom g u,
+  Good size D u ->
+  Good size D (get_positions_with_two_bonds size D atom g u) /\
+  Good size D (get_position_with_three_bonds size D atom g u).
+Proof. exact T_protocol_get_positions_partial. Qed.
+
+(* ANY sequence of the modelled protocols after assign_cells: unless stale was
+   set, every query issued inside or between them equals brute force over the
+   atoms that were in the structure at that moment, and so does any query on the
+   final state *)
+Theorem C14_histories_of_protocols : forall size D, 0 < size -> 0 < D ->
+  forall atoms u0 cl,
+  NoDup atoms -> (forall a, In a atoms <-> present u0 a = true) -> alloc u0 ->
+  let u := run_calls size D cl (assign_cells size D atoms u0) in
+  stale u = false ->
+  (forall q, In q (qlog u) -> q_present q (q_atom q) = true ->
+     forall b c0, 0 <= c0 <= D * size ->
+     (In b (filter (within c0 (q_cs q) (q_atom q)) (get_near_cells size (q_cs q) (q_atom q))) <->
+      q_present q b = true /\ b <> q_atom q /\ within c0 (q_cs q) (q_atom q) b = true)) /\
+  (forall a, present u a = true -> forall b c0, 0 <= c0 <= D * size ->
+     (In b (filter (within c0 (cs u) a) (get_near_cells size (cs u) a)) <->
+      present u b = true /\ b <> a /\ within c0 (cs u) a b = true)).
+Proof. exact histories_of_protocols. Qed.
+
+Example C14_history_nonvacuous :
+  let o := mkFin false (42, 5, 0) [0%nat] (fun i m => (42, 5, Z.of_nat i)) (Some (43, 4, 1)) (0, 0, 0) false true false in
+  let u0 := mkU (mk (fun _ => []) (fun _ => None)
+                    (fun a => match a with 0%nat => (40, 0, 0) | 1%nat => (38, 8, 0) | _ => (-1, 0, 0) end))
+                (fun a => Nat.ltb a 3) (fun a => match a with 0%nat => [1%nat] | 1%nat => [0%nat] | _ => [] end) 3 false [] in
+  let u := run_calls 5 10 [CSetDihedral [1%nat] (fun _ => (38, 9, 1)); CAlcFinalize o 0%nat; CDetect [0%nat]] (assign_cells 5 10 [0%nat; 1%nat; 2%nat] u0) in
+  stale u = false /\ List.length (qlog u) = 19%nat /\ present u 3%nat = true /\
+  filter (within 50 (cs u) 0%nat) (get_near_cells 5 (cs u) 0%nat) = [2%nat; 1%nat; 3%nat].
+Proof. exact history_nonvacuous. Qed.
+
 Print Assumptions C14_key_code_idx.
 Print Assumptions C14_idx_adjacent.
 Print Assumptions C14_query_exact.
@@ -71,3 +191,17 @@ Print Assumptions C14_inv_step.
 Print Assumptions C14_reachable_query_exact.
 Print Assumptions C14_undisciplined_miss.
 Print Assumptions C14_nonvacuous.
+Print Assumptions C14_sites_table_matches_model.
+Print Assumptions C14_protocol_assign_cells_disciplined.
+Print Assumptions C14_protocol_set_dihedral_angle_disciplined.
+Print Assumptions C14_protocol_debump_window_disciplined.
+Print Assumptions C14_protocol_remove_delete_disciplined.
+Print Assumptions C14_protocol_flip_init_disciplined.
+Print Assumptions C14_protocol_carboxylic_disciplined.
+Print Assumptions C14_protocol_try_donor_acceptor_disciplined.
+Print Assumptions C14_protocol_try_both_disciplined.
+Print Assumptions C14_protocol_finalize_disciplined.
+Print Assumptions C14_protocol_get_positions_refuted.
+Print Assumptions C14_protocol_get_positions_partial.
+Print Assumptions C14_histories_of_protocols.
+Print Assumptions C14_history_nonvacuous.
